@@ -42,6 +42,13 @@ type Result struct {
 // delivery order). observe is called on every item before it is released. When
 // max items were taken, or stopAfter > 0 elapsed, the context is cancelled.
 func Drain(p core.Provider, max int, consumers int, deadline time.Duration, observe func(core.Ammo) error) (res Result, err error) {
+	return DrainSettle(p, max, consumers, deadline, 0, observe)
+}
+
+// DrainSettle is Drain with a pause between the moment the consumers stopped acquiring and the cancellation,
+// which lets the provider fill its queue and park on the blocked hand-over (the state an engine run leaves it in
+// when the instances end by schedule with ammo remaining).
+func DrainSettle(p core.Provider, max int, consumers int, deadline, settle time.Duration, observe func(core.Ammo) error) (res Result, err error) {
 	ctx, cancel := context.WithCancel(context.Background())
 	defer cancel()
 	runDone := make(chan error, 1)
@@ -127,6 +134,9 @@ func Drain(p core.Provider, max int, consumers int, deadline time.Duration, obse
 	full := taken >= max
 	mu.Unlock()
 	if full {
+		if settle > 0 {
+			time.Sleep(settle)
+		}
 		res.Cancelled = true
 		cancel()
 	}
